@@ -116,12 +116,14 @@ class C12(core.Check):
 
     def directed(self):
         # numeric_bytecode min / max
-        for (lo, hi, size) in [(0, 7, 3), (1, 6, 3), (2, 2, 4), (0, 255, 8), (3, 1000, 12), (0, 1, 1)]:
-            for v, pos in [(lo - 1, 'min-1'), (lo, 'min'), (hi, 'max'), (hi + 1, 'max+1')]:
+        # (bounds of exactly 0, negative bounds, and a one-value range included: 0 is a bound like any other)
+        for (lo, hi, size) in [(0, 7, 3), (1, 6, 3), (2, 2, 4), (0, 255, 8), (3, 1000, 12), (0, 1, 1), (-4, 0, 3), (0, 0, 2), (-3, -1, 3),
+                               (-8, 0, 4), (0, 3, 4)]:
+            for v, pos in [(lo - 1, 'min-1'), (lo, 'min'), (hi, 'max'), (hi + 1, 'max+1'), (hi + 2, 'max+1'), (lo - 2, 'min-1')]:
                 conf = {'type': 'numeric_bytecode', 'bytecode': {'size': size, 'min': lo, 'max': hi}}
                 yield self.one(conf, lit(v), {'id': 'o', 'val': v}, 0, ['kind:numeric_bytecode', 'pos:' + pos])
         # relative_address min / max, from start and from the last byte, curly and plain
-        for (lo, hi, size) in [(-128, 127, 8), (-5, 9, 8), (0, 15, 4), (-8, 7, 4), (-100, 100, 16), (1, 3, 8)]:
+        for (lo, hi, size) in [(-128, 127, 8), (-5, 9, 8), (0, 15, 4), (-8, 7, 4), (-100, 100, 16), (1, 3, 8), (-6, 0, 8), (0, 0, 8), (-9, -2, 8)]:
             for from_end in (False, True):
                 for curly in (False, True):
                     conf = {'type': 'relative_address', 'argument': {'size': size, 'byte_align': True, 'min': lo, 'max': hi}}
